@@ -17,7 +17,7 @@
 //   vnav walk <world.json> <seed> <nwalks> <len> <out.ndjson>     seeded random protocol walks
 //   vnav both <world.json> <depth> <maxcalls> <seed> <nwalks> <len> <out.ndjson>   explore, then walk
 //   vnav replay <world.json> <script.json> <out.ndjson>           one given op sequence
-//   vnav dump <world.json> <out.org.json>                         the OrangeInput that was built
+//   vnav dump <curved.json> <out.org.json>       build a curved world (worlds.py) through orangeinp, write .org.json
 //   vnav fixture <file.org.json> <seed> <nrays> <nwalks> <npoints> <nturns> <out.ndjson> [focus.json]
 //        straight rays, random protocol walks, safety probes and boundary-turn histories (a fresh
 //        direction on every boundary reached before cross_boundary) on a geometry file (raw doubles;
@@ -46,6 +46,7 @@
 #include "orange/BoundingBoxUtils.hh"
 #include "orange/OrangeData.hh"
 #include "orange/OrangeInput.hh"
+#include "orange/OrangeInputIO.json.hh"
 #include "orange/OrangeParams.hh"
 #include "orange/OrangeTrackView.hh"
 #include "orange/OrangeTypes.hh"
@@ -349,6 +350,95 @@ Geo build_world(json const& w)
         g.local_names[uid.get()] = names[it->second];
     }
     return g;
+}
+
+//---------------------------------------------------------------------------//
+// CURVED WORLDS (tools/worlds.py curved_world): boxes placed with ARBITRARY rotations/reflections and
+// translations, holding spheres and cylinders (and possibly a further rotated box universe).  Built
+// through orangeinp and written out as an ordinary .org.json, so that the fixture pipeline (and the
+// independent oracle, which reads the JSON) treats them like any other geometry file.
+//   universe = {"name", "half":[a,b,c], "solids":[{"name","shape":"sphere","c":[..],"r":r} |
+//               {"name","shape":"cyl","c":[..],"r":r,"hh":h,"axis":0|1|2}],
+//               "daughters":[{"u": index, "R":[[..]x3], "t":[..]}], "bg": name}
+VariantTransform make_general_transform(json const& f)
+{
+    SquareMatrixReal3 m;
+    Real3 t;
+    for (int r = 0; r < 3; ++r)
+    {
+        t[r] = f.at("t").at(r).get<double>();
+        for (int c = 0; c < 3; ++c)
+            m[r][c] = f.at("R").at(r).at(c).get<double>();
+    }
+    return Transformation{m, t};
+}
+
+OrangeInput build_curved(json const& w)
+{
+    auto const& us = w.at("universes");
+    std::size_t const n = us.size();
+    std::vector<SPConstProto> protos(n);
+    for (std::size_t r = 0; r < n; ++r)
+    {
+        std::size_t ui = n - 1 - r;
+        auto const& u = us[ui];
+        std::string const uname = u.at("name").get<std::string>();
+        oi::UnitProto::Input inp;
+        inp.label = uname;
+        Real3 hw;
+        for (int k = 0; k < 3; ++k)
+            hw[k] = u.at("half").at(k).get<double>();
+        inp.boundary.interior = std::make_shared<oi::BoxShape>(uname + ":bnd", oi::Box{hw});
+        inp.boundary.zorder = ZOrder::media;
+        unsigned int mat = 0;
+        for (auto const& d : u.at("daughters"))
+        {
+            oi::UnitProto::DaughterInput di;
+            di.fill = protos.at(d.at("u").get<std::size_t>());
+            di.transform = make_general_transform(d);
+            inp.daughters.push_back(std::move(di));
+        }
+        for (auto const& sd : u.at("solids"))
+        {
+            std::string sname = sd.at("name").get<std::string>();
+            Real3 c;
+            for (int k = 0; k < 3; ++k)
+                c[k] = sd.at("c").at(k).get<double>();
+            SPConstObject obj;
+            if (sd.at("shape") == "sphere")
+            {
+                obj = std::make_shared<oi::SphereShape>(sname + ":s", oi::Sphere{sd.at("r").get<double>()});
+                obj = std::make_shared<oi::Transformed>(obj, Translation{c});
+            }
+            else
+            {
+                obj = std::make_shared<oi::CylinderShape>(
+                    sname + ":c", oi::Cylinder{sd.at("r").get<double>(), sd.at("hh").get<double>()});
+                int ax = sd.at("axis").get<int>();
+                // the shape's axis is z: a cyclic permutation of the axes turns it to x or y
+                SquareMatrixReal3 m{Real3{1, 0, 0}, Real3{0, 1, 0}, Real3{0, 0, 1}};
+                if (ax == 0)
+                    m = SquareMatrixReal3{Real3{0, 0, 1}, Real3{1, 0, 0}, Real3{0, 1, 0}};
+                else if (ax == 1)
+                    m = SquareMatrixReal3{Real3{0, 1, 0}, Real3{0, 0, 1}, Real3{1, 0, 0}};
+                obj = std::make_shared<oi::Transformed>(obj, Transformation{m, c});
+            }
+            oi::UnitProto::MaterialInput mi;
+            mi.interior = obj;
+            mi.fill = GeoMaterialId{mat++};
+            mi.label = Label{sname};
+            inp.materials.push_back(std::move(mi));
+        }
+        inp.background.fill = GeoMaterialId{mat++};
+        inp.background.label = Label{u.at("bg").get<std::string>()};
+        protos[ui] = std::make_shared<oi::UnitProto>(std::move(inp));
+    }
+    oi::InputBuilder build_input{[] {
+        oi::InputBuilder::Options opts;
+        opts.tol = Tolerance<>::from_default();
+        return opts;
+    }()};
+    return build_input(*protos[0]);
 }
 
 //---------------------------------------------------------------------------//
@@ -1457,11 +1547,11 @@ int main(int argc, char** argv)
         }
         if (mode == "dump" && argc == 4)
         {
+            // curved world description -> the OrangeInput orangeinp builds, as .org.json
             json w = load_json(argv[2]);
-            // rebuild the input only (no params) to show what orangeinp produced
-            Geo geo = build_world(w);
-            std::ofstream(argv[3]) << "{\"universes\": " << geo.params->num_universes() << ", \"volumes\": "
-                                   << geo.params->num_volumes() << "}\n";
+            OrangeInput input = build_curved(w);
+            json out = input;
+            std::ofstream(argv[3]) << out.dump() << "\n";
             return 0;
         }
     }
